@@ -159,7 +159,7 @@ VNAME = {"E": "exact", "P": "perturbed", "O": "omitted"}
 def make_spec(unit, mask, variant):
     ih = state_ih(unit, mask)
     spec = {"dim": unit.dim, "new": unit.new, "fix": unit.fix,
-            "truth": {p: unit.C[p] for p in unit.new}, "need": unit.need,
+            "truth": N.truth_in_frame(unit), "need": unit.need,
             "exp_obs": [list(e[:4]) for e in N.expected_obs(unit, mask)],
             "ctol": CTOL, "rtol_lin": RTOL, "rtol_ang": RTOL, "ih": ih}
     if ih and variant[0] != "E":
@@ -376,6 +376,15 @@ def edges(ck, unit, P):
                                      replay={"unit": list(unit.placement), "mask": s, "added": b, "key": str(key)})
 
 
+def unit_text(e):
+    t = "%s x%d" % (e[0], e[1])
+    if len(e) > 2 and e[2]: t += " (first %d candidates)" % e[2]
+    if len(e) > 3:
+        if "frames" in e[3]: t += " x %d frames [%s]" % (len(e[3]["frames"]), " ".join("%s/%s" % (a, s[0]) for a, s in e[3]["frames"]))
+        if "idrev" in e[3]: t += " x id order {new after known, new before known}"
+    return t
+
+
 def main():
     ck = vlib.Check("C06", level="model_checking")
     exe = vlib.exe("rel", "gama-local")
@@ -418,7 +427,7 @@ def main():
         vlib.log("[C06] %6d x %s%s\n         e.g. %s" % (n, sig, "  (known finding)" if ck.known.match("C06", sig) else "", ex_))
     ck.counters["evaluations"] = ck.counters.get("transitions", 0)
     ck.counters["distinct_nontrivial"] = ck.counters.get("states", 0)
-    ck.finish(RULE % {"tier": tier, "units": ", ".join("%s x%d%s" % (e[0], e[1], "" if len(e) < 3 else " (first %d candidates)" % e[2]) for e in T.TIERS[tier])},
+    ck.finish(RULE % {"tier": tier, "units": ", ".join(unit_text(e) for e in T.TIERS[tier])},
               extra={"violation_signatures": {k: v[0] for k, v in sorted(SIGS.items())}},
               assumptions=ASSUMPTIONS)
 
@@ -429,7 +438,9 @@ RULE = ("tier %(tier)s: templates x placements = %(units)s; for every template i
         "point) that the closure model resolves, station circles turned through the 5-value zero menu (rotated over the stations; "
         "quick: all 5 rotations for exact and all-omitted, one rotating for the others), every order of the cluster groups (station clusters, "
         "height-differences, vectors, coordinates) in the input file for the omitted variants (rotating for exact / perturbed), azimuth first / last / "
-        "absent in its station cluster (template azi3d), algorithms: quick all 4, thorough envelope + one "
+        "absent in its station cluster (template azi3d), coordinate frame axes-xy x angles and id order of new vs known points as listed per "
+        "template (truth, approximate offsets, vectors, observed coordinates and the sense of directions / angles / azimuths generated "
+        "consistently per frame), algorithms: quick all 4, thorough envelope + one "
         "rotating; oracle per run: exit 0, no removed point/observation, no outlying term, no failed linearization test, adjusted = true "
         "within 1e-6 m, |adj-obs| < 1e-3 mm/cc; per lattice edge s -> s+o: same adjusted coordinates (1e-8 m with exact approximations, "
         "the sum of the two state bounds otherwise). "
